@@ -1,28 +1,26 @@
-\* (ii) UDP - exhaustive: any read chunking (Chunks = {0}), every cut offset of every datagram
-\* sequence up to MaxT over Classes, cut by EOF and by error, up to MaxU datagrams in the other
-\* direction with the flush ticker interleaved everywhere.  Safety + liveness (weak fairness).
-\* The driver substitutes the bounds and the deviation switches:
-\*   DEVSPIN/DEVNOUNBLOCK = FALSE, LIVE = UTermination         the patched code, strict liveness (default)
-\*   DEVSPIN/DEVNOUNBLOCK = TRUE,  LIVE = UTerminationExcused  the code as found: terminates unless a named deviation is taken
-\*   any deviation TRUE,           LIVE = UTermination         "lasso" runs: MUST FAIL (TLC shows the spin / the goroutine blocked forever)
+\* (ii) UDP - DEFAULT: the code with patches C12-1 and C12-2 applied (both deviations off).
+\* Exhaustive: any read chunking (Chunks = {0}), every cut offset of every datagram sequence of
+\* length <= 2 over the four size classes, cut by EOF and by error, USmall datagrams in the other
+\* direction with the flush ticker interleaved everywhere.  Safety + strict liveness <>returned.
+\* (other bounds: Relay_udp_tmpl.cfg, instantiated by harness/drivers/c12)
 CONSTANTS
   MaxSend = 1
   EofWithData = TRUE
   Emit = FALSE
-  Classes = @@CLASSES@@
-  BatchSize = @@BATCHSIZE@@
+  Classes = {1, 2, 3, 4}
+  BatchSize = 32
   BatchBuf = 22
   High = 100
-  MaxT = @@MAXT@@
-  MaxU = @@MAXU@@
-  TSeqs <- @@TSEQS@@
-  USeqs <- @@USEQS@@
+  MaxT = 2
+  MaxU = 1
+  TSeqs <- TAll
+  USeqs <- USmall
   Cuts = "all"
   Chunks = {0}
   Paces = {"burst"}
-  DevSpin = @@DEVSPIN@@
-  DevNoUnblock = @@DEVNOUNBLOCK@@
+  DevSpin = FALSE
+  DevNoUnblock = FALSE
 SPECIFICATION USpec
 INVARIANTS UTypeOK UDatagrams UComplete UCompleteAny UEncoded UFlushed UBuf
-PROPERTIES UDelivMonotone UEventuallyFlushed @@LIVE@@
+PROPERTIES UDelivMonotone UEventuallyFlushed UTermination
 CHECK_DEADLOCK FALSE
